@@ -257,8 +257,24 @@ fn case_internal(t: &mut Tape, st: &mut Stats) -> Verdict {
             let mut a = ctx.variables.clone();
             let mut b = snap.clone();
             if let Some(o) = &out_var {
-                a.remove(o);
-                b.remove(o);
+                // the in-flight instruction completes: a scripted command that continues or jumps has its output
+                // variable set to the value it handed back (or unset when it handed back none) - also when it raised the
+                // flag itself. Other commands: the output variable is left out of the comparison.
+                let handed_back = with_hz(|h| if h.trace.get(k - 1).map(|e| e.cmd == "res").unwrap_or(false) { h.res_out.get(&(k as u64)).cloned() } else { None });
+                match handed_back {
+                    Some(Some(v)) => {
+                        b.insert(o.clone(), v);
+                        st.class("in-flight-instruction-with-output-variable-completes");
+                    }
+                    Some(None) => {
+                        b.remove(o);
+                        st.class("in-flight-instruction-with-output-variable-completes");
+                    }
+                    None => {
+                        a.remove(o);
+                        b.remove(o);
+                    }
+                }
             }
             // structured programs: an assignment line `v = tick ..` carries its output variable in the event as well
             if a != b {
